@@ -259,7 +259,12 @@ struct Worker {
 
 	Worker(Engine * e) : eng(e) {
 		ctx.run_child = [this](const Json & p, bool v) { children++; return spawn_child(eng, p, v); };
-		ctx.run_ref = [this](const Json & p) {
+		ctx.run_ref = [this](const Json & p_in) {
+			// a reference is "the same thing done first in a fresh process": its heap is pristine, so the allocator perturbation that fills fresh
+			// memory with history-dependent garbage is off there (whatever the library reads without having written it then differs between the
+			// history and its reference, instead of being equally wrong in both)
+			Json p = p_in;
+			if (p.has("knobs") && p.at("knobs").is_obj() && p.at("knobs").has("malloc_fill")) p["knobs"]["malloc_fill"] = 0;
 			uint64_t h = fnv_str(p.dump());
 			auto it = memo.find(h);
 			if (it != memo.end()) { ctx.refs_memo++; return it->second; }
